@@ -575,3 +575,18 @@ mutant("C18-M22", "C18", "R18e", "unit migration unconditional", DA, "ProjectDat
 twin("C18-T4", "C18", "unit comparison with casefold", DA, "ProjectData.from_spreadsheet", "ts.units.strip().lower() == tdve.allowed_units[0].strip().split()[0].strip().lower()", "ts.units.strip().casefold() == tdve.allowed_units[0].strip().split()[0].strip().casefold()")
 mutant("C15-M15", "C15", "R15f", "initial spend remembered on the adjustable", OP, "SpendingAdjustment.get_initialization", "                initialization.append(alloc[self.prog_name][0])", "                adjustable.initial_value = alloc[self.prog_name][0]\n                initialization.append(adjustable.initial_value)")
 mutant("C15-M16", "C15", "R15f", "constraint caches the years it was last asked about", OP, "TotalSpendConstraint.get_hard_constraint", '        hard_constraints["bounds"] = dict()\n', '        hard_constraints["bounds"] = dict()\n        self.t = sc.promotetoarray(list(hard_constraints["programs"].keys()))\n')
+
+# ---- second mutation sweep (Model step functions): survivors turned into mutants
+mutant("C01-M25", "C01", "R01l", "update_comps skips sink compartments", M, "Model.update_comps", "                comp.update(ti)", "                if not isinstance(comp, SinkCompartment):\n                    comp.update(ti)")
+mutant("C01-M26", "C01", "R01l", "update_links resolves outflows of the first population only", M, "Model.update_links", "        for pop in self.pops:\n            for comp in pop.comps:\n                comp.resolve_outflows(ti)", "        for pop in self.pops[:1]:\n            for comp in pop.comps:\n                comp.resolve_outflows(ti)")
+mutant("C06-M32", "C06", "R06i", "keep flag only for dynamic parameters (program targets dropped)", M, "Model._set_exec_order", "if par._is_dynamic or (self.progset and par.name in self.progset.pars):", "if par._is_dynamic:")
+mutant("C06-M33", "C06", "R06i", "dependency edge condition negated", M, "Model._set_exec_order", 'if dep in par_derivative and par_derivative[dep] != "y":', 'if dep in par_derivative and par_derivative[dep] == "y":')
+mutant("C06-M34", "C06", "R06i", "transition parameters: proportion test negated", M, "Model._set_exec_order", "if par.links and par.units != FS.QUANTITY_TYPE_PROPORTION:", "if par.links and par.units == FS.QUANTITY_TYPE_PROPORTION:")
+mutant("C06-M35", "C06", "R06i", "characteristic order ignores included characteristics", M, "Model._set_exec_order", "                        G.add_edge(include, charac)  # Note directionality - the included characteristic needs to be added first", "                        pass")
+mutant("C06-M36", "C06", "R06j", "dependency sum subtracts compartments", M, "Parameter.update", "dep_vals[dep_name] += dep[ti]\n", "dep_vals[dep_name] -= dep[ti]\n")
+mutant("C06-M37", "C06", "R06j", "dependency sums start at one", M, "Parameter.update", "dep_vals = dict.fromkeys(self.deps, 0.0)", "dep_vals = dict.fromkeys(self.deps, 1.0)")
+mutant("C07-M21", "C07", "R07f", "characteristic sum starts at one", M, "Characteristic.update", "        self._vals[ti] = 0\n", "        self._vals[ti] = 1\n")
+mutant("C13-M20", "C13", "R13g", "eligible count subtracts", M, "Model.update_pars", "                        n += comp[ti]", "                        n -= comp[ti]")
+mutant("C13-M21", "C13", "R13g", "source popsize starts at one", M, "Parameter.source_popsize", "                n = 0\n", "                n = 1\n")
+mutant("C20-M16", "C20", "R20h", "population size subtracts compartments", M, "Population.popsize", "n += comp[ti]", "n -= comp[ti]")
+twin("C06-T9", "C06", "keep flag condition with the disjuncts swapped", M, "Model._set_exec_order", "if par._is_dynamic or (self.progset and par.name in self.progset.pars):", "if (self.progset and par.name in self.progset.pars) or par._is_dynamic:")
